@@ -81,7 +81,7 @@ def C13(tier, seed):
                     required=["C13.relative_panic", "C13.relative_kind", "C13.relative_correctly_rounded"])
     st_rel = Stage("rel", ("Gen_Interval", "Gen_Interval.cfg"), ("Trace_Interval", "Trace_Interval.cfg"),
                    env={"FAMILY": "rel"},
-                   required=["C13.relative_panic", "C13.relative_wellformed", "C13.relative_sound", "C13.relative_tight"])
+                   required=["C13.relative_panic", "C13.relative_wellformed", "C13.relative_sound", "C13.relative_tight", "C13.relative_scale_free"])
     return {
         "stages": [st_box, st_rel, st_rel3],
         "exhaustive": True,
@@ -283,7 +283,9 @@ def C11(tier, seed):
     return {
         "stages": [st("mean", mean_req),
                    st("prop", ["C11.no_panic", "C11.is_significant", "C11.is_significant_k_gt_n", "C11.documented_panic", "C11.stats_new", "C11.prop"]),
-                   st("quant", ["C11.no_panic", "C11.quant_ranks", "C11.quant_data", "C11.documented_panic_quantile"])],
+                   st("quant", ["C11.no_panic", "C11.quant_ranks", "C11.quant_data", "C11.documented_panic_quantile"])]
+                  # valid input of very large size must not panic either (overflow checks are on)
+                  + bigpop_stages(['C02.domain', 'C02.in01', 'C02.no_panic', 'C02.shape'], ['C03.domain', 'C03.in_range', 'C03.kind', 'C03.no_panic']),
         "exhaustive": True,
         "rule": "decision table of module Totality: five mean/comparison producers x call styles x samples of length 0..4 (6 thorough) with one "
                 "offending observation (NaN, +-inf, -0, 0, negative, 1e200, 1e-200) at every position, constant and non exactly summable "
@@ -301,7 +303,7 @@ def prop_stage(grp, nmax, req, levels="sel", shards=8, big=6):
                  env={"GRP": grp, "PROP_N": nmax, "PROP_LEVELS": levels, "PROP_BIG": big}, required=req, shards=shards)
 
 
-C02_REQ = ["C02.domain", "C02.no_panic", "C02.shape", "C02.in01", "C02.level_echo", "C02.root_lo", "C02.root_hi",
+C02_REQ = ["C02.population_beyond_32_bits", "C02.domain", "C02.no_panic", "C02.shape", "C02.in01", "C02.level_echo", "C02.root_lo", "C02.root_hi",
            "C02.around_estimate", "C02.front_end", "C02.negative_z", "C02.zero_z", "C02.method.wilson", "C02.method.wald",
            "C02.kind.two", "C02.kind.upper", "C02.kind.lower"] + \
           ["C02.front_end." + f for f in ("ci", "ci_wilson_ratio", "ci_true", "ci_if", "stats_new", "stats_from_iter", "stats_extend", "stats_extend_if", "stats_add", "stats_mixed")] + \
@@ -309,6 +311,18 @@ C02_REQ = ["C02.domain", "C02.no_panic", "C02.shape", "C02.in01", "C02.level_ech
 TABLES_MC = [("MC_Tables", "MC_Tables.cfg", {}, 1), ("MC_BigNum", "MC_BigNum.cfg", {}, 1)]
 NUM_TRUST = TLC_TRUST + ["the mpmath-generated quantile tables (spec/tables; axioms checked by MC_Tables in exact arithmetic)",
                          "the BigInteger accelerators of the exact kernel (checked against the TLA+ definitions by MC_BigNum)"]
+
+
+def bigpop_stages(adopt_prop, adopt_quant):
+    """populations beyond 2^32 through the count-based proportion entry points and the index-only quantile entry points"""
+    bp = Stage("bigpop", ("Gen_Proportion", "Gen_Proportion.cfg"), ("Trace_Proportion", "Trace_Proportion.cfg"),
+               env={"GRP": "big", "PROP_N": 0, "PROP_LEVELS": "sel", "PROP_BIG": 0}, shards=2,
+               required=["C02.population_beyond_32_bits", "C02.root_lo", "C02.root_hi", "C02.no_panic"])
+    bp.adopt = set(adopt_prop)
+    bq = Stage("bigpopq", ("Gen_Quantile", "Gen_Quantile.cfg"), ("Trace_Quantile", "Trace_Quantile.cfg"),
+               env={"PART": "big"}, shards=1, required=["C03.population_beyond_32_bits", "C03.no_panic", "C03.in_range"])
+    bq.adopt = set(adopt_quant)
+    return [bp, bq]
 
 
 def C02(tier, seed):
@@ -333,10 +347,11 @@ def C17(tier, seed):
     lv = "sel" if tier == "quick" else "all"
     row = prop_stage("row", n, ["C17.monotone_in_k", "C17.mirror", "C17.mirror.two", "C17.mirror.lower", "C17.in01", "C17.midpoint", "C17.entry_points_agree", "C17.entry_points_agree.large_population"], levels=lv)
     row.mc = list(TABLES_MC)
+    row.adopt = {"C02.root_lo", "C02.root_hi", "C02.no_panic"}     # the laws are those of the Wilson / Wald roots at the true z
     return {
         "stages": [row,
                    prop_stage("mult", n, ["C17.shrinks_with_n"]),
-                   prop_stage("levels", n, ["C17.wider_with_level"])],
+                   prop_stage("levels", n, ["C17.wider_with_level"])] + bigpop_stages(['C02.domain', 'C02.front_end', 'C02.in01', 'C02.no_panic', 'C02.root_hi', 'C02.root_lo', 'C02.shape'], [])[:1],
         "exhaustive": True,
         "rule": "relations over the recorded table (n, k) -> interval: for every n <= 40 (130) and confidence, consecutive k (monotone), "
                 "k vs n-k within two-sided rows and between upper and lower rows (mirror, 2^-50), midpoint between k/n and 1/2; "
@@ -361,7 +376,7 @@ def C03(tier, seed):
     ranks.mc = [("MC_BigNum", "MC_BigNum.cfg", {}, 1)]
     perm = st("perm", ["C03.data_outcome", "C03.data_elements"] + ["C03.entry." + x for x in ("ci", "sorted", "max_n", "max_1024")]
               + ["C03.type." + x for x in ("i32", "f64", "char", "str")], {"P_N": 6 if q else 7})
-    shuf = st("shuffle", ["C03.data_outcome", "C03.data_elements", "C03.distinct_values_shuffled", "C03.capacity_above_default"], {"Q_SHUFFLES": 60 if q else 600}, shards=4)
+    shuf = st("shuffle", ["C03.data_outcome", "C03.data_elements", "C03.distinct_values_shuffled", "C03.capacity_above_default", "C03.entry.ci_sparse"], {"Q_SHUFFLES": 60 if q else 600}, shards=4)
     own = own_stage("Q", "Trace_Quantile", ["C03.ranks", "C03.domain"])
     own.shards = 1
     return {
@@ -387,8 +402,16 @@ def C12(tier, seed):
                  env={"PART": "shuffle", "Q_SHUFFLES": 40 if tier == "quick" else 400}, shards=4,
                  required=["C03.data_outcome", "C03.data_elements", "C03.distinct_values_shuffled"])
     vals.adopt = {"C03.data_outcome", "C03.data_elements", "C03.no_panic"}
+    # ... and every proportion entry point must return the interval whose coverage is summed
+    fronts = Stage("fronts", ("Gen_Proportion", "Gen_Proportion.cfg"), ("Trace_Proportion", "Trace_Proportion.cfg"),
+                   env={"GRP": "fronts", "PROP_N": 0, "PROP_LEVELS": "sel", "PROP_BIG": 0}, shards=6,
+                   required=["C02.front_end", "C02.front_end.ci", "C02.front_end.ci_wilson_ratio", "C02.front_end.stats_new"])
+    fronts.adopt = {"C02.front_end", "C02.no_panic", "C02.domain"}
     return {
-        "stages": [prop, st("quant", ["C12.quant_pointwise", "C12.quant_mean", "C12.quant_extreme_floor"]), vals],
+        # beyond the sizes whose binomial can be summed: the Wilson interval is the root pair of the score equation (its coverage is
+        # then the nominal one) and the ranks stay within 4 sqrt(n) of round(q n)
+        "stages": [prop, st("quant", ["C12.quant_pointwise", "C12.quant_mean", "C12.quant_extreme_floor"]), vals, fronts]
+                  + bigpop_stages(['C02.domain', 'C02.front_end', 'C02.in01', 'C02.no_panic', 'C02.root_hi', 'C02.root_lo', 'C02.shape'], ['C03.brackets', 'C03.domain', 'C03.entry_points_agree', 'C03.in_range', 'C03.kind', 'C03.no_panic', 'C03.ranks']),
         "exhaustive": True,
         "rule": "n in {20,30,50,100,200} (+400,1000,2000 thorough) x levels {0.8,0.9,0.95,0.99} x 3 kinds: the interval of EVERY k (resp. the "
                 "rank interval of every q = a/200) is recorded; for every grid point p = a/200 with n p, n(1-p) >= 10 the exact binomial coverage "
@@ -522,7 +545,7 @@ def C04(tier, seed):
 
 def C05(tier, seed):
     st = mean_stage("c05", "C05", ["C05.no_panic", "C05.geo_outcome", "C05.geo_bounds", "C05.geo_mean", "C05.geo_sem", "C05.mean_inequality",
-                                   "C05.harm_outcome", "C05.harm_bounds", "C05.harm_mean", "C05.harm_sem", "C05.harm_straddle_rejected",
+                                   "C05.harm_outcome", "C05.harm_bounds", "C05.harm_mean", "C05.harm_sem", "C05.harm_straddle_rejected", "C05.subnormal_data_accepted",
                                    "C05.call_styles_agree", "C05.kind.two", "C05.kind.upper", "C05.kind.lower"], 30 if tier == "quick" else 300)
     rej = []
     for fl in ("geo", "harm"):
